@@ -120,6 +120,11 @@ func init() {
 		"strings.IndexByte":  func(fr *frame, a []value) value { return fr.i.indexByte(a[0], a[1]) },
 		"strings.Compare":    func(fr *frame, a []value) value { return fr.i.seqCompare(a[0], a[1]) },
 		"internal/stringslite.IndexByte": func(fr *frame, a []value) value { return fr.i.indexByte(a[0], a[1]) },
+		// sort.Slice family: reflectlite-free model (stable insertion sort; the
+		// comparison sequence differs from pdqsort, the result does not for
+		// consistent comparators)
+		"sort.Slice":       sortSlice,
+		"sort.SliceStable": sortSlice,
 		// errors
 		"errors.Is": errorsIs,
 		"errors.As": errorsAs,
@@ -1217,4 +1222,27 @@ func (i *interpreter) callFormatter(f value, a iface, verb rune, fl fmtFlags) va
 	call(i, nil, token.NoPos, f, []value{a.v, state, int32(verb)})
 	buf, _ := cell.(structure)[0].([]value)
 	return i.bytesToString(buf)
+}
+
+func sortSlice(fr *frame, a []value) value {
+	i := fr.i
+	sl, ok := a[0].(iface).v.([]value)
+	if !ok {
+		panic(engineAbort{kind: abortUnsupported, msg: "sort.Slice on non-slice"})
+	}
+	less := a[1]
+	for x := 1; x < len(sl); x++ {
+		for y := x; y > 0; y-- {
+			r := call(i, fr, token.NoPos, less, []value{y, y - 1})
+			if !i.boolOf(r, "sort.less") {
+				break
+			}
+			if i.freezeOn {
+				i.monitorWrite(&sl[y])
+				i.monitorWrite(&sl[y-1])
+			}
+			sl[y], sl[y-1] = sl[y-1], sl[y]
+		}
+	}
+	return nil
 }
